@@ -315,15 +315,76 @@ fn local_decl_programs(rng: &mut Rng, count: usize) -> Vec<String> {
             }
         }
         let wrapper = rng.below(5);
+        let outer = if rng.chance(1, 2) { "local a, b, c = 11, 12, 13\nemit(a, b, c)\n" } else { "" };
         let body = format!("{}\n{}emit({})\n", decl, after, uses.join(", "));
         let prog = match wrapper {
-            0 => format!("{}local function v(...)\n{}return 1\nend\nreturn v(7, 8)\n", PRELUDE, body),
-            1 => format!("{}do\n{}end\nreturn 1\n", PRELUDE, body),
-            2 => format!("{}local n = 0\nrepeat\nn = n + 1\n{}until n > 1 or {}\nreturn n\n", PRELUDE, body, if nn > 1 { "b" } else { "a" }),
-            3 => format!("{}{}local u1, u2 = get1(), 2\nlocal function unused() return u1 end\nreturn 1\n", PRELUDE, body),
-            _ => format!("{}{}return 1\n", PRELUDE, body),
+            0 => format!("{}{}local function v(...)\n{}return a\nend\nreturn v(7, 8)\n", PRELUDE, outer, body),
+            1 => format!("{}{}do\n{}end\nreturn a, b\n", PRELUDE, outer, body),
+            2 => format!("{}{}local n = 0\nrepeat\nn = n + 1\n{}until n > 1 or {}\nreturn n, c\n", PRELUDE, outer, body, if nn > 1 { "b" } else { "a" }),
+            3 => format!("{}{}{}local u1, u2 = get1(), 2\nlocal function unused() return u1 end\nreturn 1\n", PRELUDE, outer, body),
+            _ => format!("{}{}{}return a\n", PRELUDE, outer, body),
         };
         v.push(prog);
+    }
+    v
+}
+
+fn index_field_programs() -> Vec<String> {
+    let keys = [
+        "'a'", "\"k\"", "'not'", "'end'", "'1x'", "'_x9'", "''", "'a b'", "'a' .. 'b'", "('k')", "'continue'", "'é'", "1", "x", "nope",
+        "true and 'k'", "nil or 'a'", "(false or 'k')", "{} and 'a'", "{get1()} and 'a'", "get1() and 'a'", "(function() end) and 'k'",
+        "`k`", "`{'k'}`", "'k' :: any", "(if true then 'a' else 'k')", "not nil and 'a'", "'x' .. 1", "#'a' == 1 and 'a'", "f2() and 'k'", "'goto'", "'self'",
+    ];
+    let mut v = Vec::new();
+    for k in keys {
+        v.push(format!("{}return t[{}]
+", PRELUDE, k));
+        v.push(format!("{}t[{}] = 7
+t[{}], t.z = 8, 9
+return t
+", PRELUDE, k, k));
+        v.push(format!("{}local r = {{ [{}] = 1, [{}] = 2, 3, z = 4 }}
+return r
+", PRELUDE, k, k));
+        v.push(format!("{}t.o = {{ m = function(self, a) emit(a) return self end, k = {{ k = 5 }}, a = {{ a = 6 }} }}
+emit(t.o[{}])
+t.o['m'](t.o, 1)
+t['o']:m(2)
+return t['o']['k'][{}], t.o[\"a\"][{}]
+", PRELUDE, k, k, k).replace("\\\"", "\""));
+        v.push(format!("{}t[{}] += 1
+return t
+", PRELUDE, k));
+    }
+    v
+}
+
+fn underscore_programs() -> Vec<String> {
+    let mut v = Vec::new();
+    for decl in ["local unused = t.k", "local u1, u2 = t.k, t.a", "local u = t.k, get1()", "local u = -t", "local u = x + 1", "local u = get1()", "local u, w = get1(), t.k", "local _ = t.k", "local u = (t.k)"] {
+        v.push(format!("{}_ = 5
+{}
+return _
+", PRELUDE, decl));
+        v.push(format!("{}local _ = 5
+do
+{}
+emit(_)
+end
+return _
+", PRELUDE, decl));
+        v.push(format!("{}for _, w in ipairs({{4}}) do
+{}
+emit(_)
+end
+return 1
+", PRELUDE, decl));
+        v.push(format!("{}local function g(_)
+{}
+return _
+end
+return g(3)
+", PRELUDE, decl));
     }
     v
 }
@@ -383,6 +444,12 @@ pub fn targeted(seed: u64, thorough: bool) -> Vec<Targeted> {
     }
     for p in call_parens_programs() {
         out.push(Targeted { family: "call-parens", code: p, rules: vec!["remove_function_call_parens", "remove_spaces", "remove_comments"], pipeline: true });
+    }
+    for p in index_field_programs() {
+        out.push(Targeted { family: "index-field", code: p, rules: vec!["convert_index_to_field", "compute_expression", "remove_function_call_parens"], pipeline: true });
+    }
+    for p in underscore_programs() {
+        out.push(Targeted { family: "underscore", code: p, rules: vec!["remove_unused_variable", "rename_variables", "remove_nil_declaration"], pipeline: true });
     }
     for p in local_decl_programs(&mut rng, if thorough { 6000 } else { 500 }) {
         out.push(Targeted { family: "local-decl", code: p, rules: vec!["remove_nil_declaration", "remove_unused_variable", "rename_variables", "compute_expression"], pipeline: rng.chance(1, 5) });
